@@ -29,6 +29,9 @@ type c14Case struct {
 	PreMechs []string `json:"pre_mechs,omitempty"`
 	// Prior: an earlier connection of the same Client succeeded against this mechanism list and was lost
 	Prior []string `json:"prior,omitempty"`
+	// AuthWrite: fault injected at the write of the <auth/> element (single connection only): "zero" = the transport
+	// reports 0 bytes written and no error, "error" = 0 bytes and an error, "partial" = half of the bytes, then an error
+	AuthWrite string `json:"auth_write,omitempty"`
 }
 
 func genC14(t *rapid.T) c14Case {
@@ -96,6 +99,9 @@ func genC14(t *rapid.T) c14Case {
 		}
 		c.Prior = append([]string{m}, pick("prior")...)
 	}
+	if c.Prior == nil && rapid.IntRange(0, 7).Draw(t, "authWriteFault") == 0 {
+		c.AuthWrite = rapid.SampledFrom([]string{"zero", "error", "partial"}).Draw(t, "authWrite")
+	}
 	c.Reply = rapid.SampledFrom([]string{"success", "success", "failure", "other"}).Draw(t, "reply")
 	c.Var = rapid.IntRange(0, 7).Draw(t, "var")
 	return c
@@ -137,6 +143,23 @@ func runC14(c c14Case) vh.Result {
 	if err != nil {
 		res.Fail("harness-newclient", "NewClient(%q): %v", c.Local, err)
 		return res
+	}
+	if c.AuthWrite != "" && c.Prior == nil {
+		wrap := &stubTransport{inner: xmpp.VerifGetTransport(cl)}
+		wrap.writeFault = func(p []byte, inner xmpp.Transport) (bool, int, error) {
+			if !strings.HasPrefix(string(p), "<auth") {
+				return false, 0, nil
+			}
+			switch c.AuthWrite {
+			case "zero":
+				return true, 0, nil
+			case "partial":
+				n, _ := inner.Write(p[:len(p)/2])
+				return true, n, errors.New("injected write failure")
+			}
+			return true, 0, errors.New("injected write failure")
+		}
+		xmpp.VerifSetTransport(cl, wrap)
 	}
 	if c.Prior != nil {
 		res.Label("reconnection-with-other-list")
@@ -209,6 +232,16 @@ func runC14(c c14Case) vh.Result {
 		}
 		return res
 	}
+	if c.AuthWrite != "" && c.Prior == nil {
+		// the element never reached the server in one piece, so the server never said <success/>
+		res.Label("auth-write-fault")
+		if o.AuthReq != nil {
+			res.Fail("harness-auth-seen-despite-fault", "the auth write was faulted (%s) yet the server received %s", c.AuthWrite, o.AuthReq.Raw)
+		} else if cerr == nil {
+			res.Fail("authenticated-without-success", "the <auth/> element was not written (%s: the transport reported no bytes / an error), the server never answered <success/>, yet Connect returned nil (server saw steps %v)", c.AuthWrite, o.Steps)
+		}
+		return res
+	}
 	if o.AuthReq == nil {
 		res.Fail("no-auth-sent", "common mechanism %s offered in %q but no <auth/> received; Connect error %v", want, c.Mechs, cerr)
 		return res
@@ -257,7 +290,7 @@ func isAlnum(s string) bool {
 
 var c14 = vh.Define(&vh.Def[c14Case]{
 	Property: "C14", Name: "sasl",
-	Rule: "local parts over everything NewJid accepts (ASCII, odd punctuation incl. & and NUL, non-ASCII, astral), secrets as arbitrary byte strings (alphanumeric, random bytes incl. invalid UTF-8, NUL-adjacent, XML metacharacters, all XML-legal text), password or token credential, server mechanism lists of 0-6 names drawn with repetition from known, unknown, wrong-case and empty names (with the matching mechanism inserted at a generated position in half of the cases), server reply success / failure (3 forms) / another element (8 forms); in a third of the cases the list differs before and after STARTTLS, or the same Client made an earlier successful connection against another list and reconnects; a real Client connects to the scripted peer over TCP; oracle on the peer transcript: mechanism == the one the credential supports and it was advertised, base64-decoded payload == NUL local NUL secret byte for byte; no common mechanism => nothing after the stream header and a permanent ConnError; <failure/> => permanent error; anything but <success/> => Connect fails; non-trivial = secret or local part not purely alphanumeric, or the mechanism list is not exactly [PLAIN]",
+	Rule: "local parts over everything NewJid accepts (ASCII, odd punctuation incl. & and NUL, non-ASCII, astral), secrets as arbitrary byte strings (alphanumeric, random bytes incl. invalid UTF-8, NUL-adjacent, XML metacharacters, all XML-legal text), password or token credential, server mechanism lists of 0-6 names drawn with repetition from known, unknown, wrong-case and empty names (with the matching mechanism inserted at a generated position in half of the cases), server reply success / failure (3 forms) / another element (8 forms); in a third of the cases the list differs before and after STARTTLS, or the same Client made an earlier successful connection against another list and reconnects; in an eighth of the single-connection cases the write of the <auth/> element is faulted in a wrapped Transport (0 bytes and no error, an error, or half of the bytes and an error) and Connect must then fail; a real Client connects to the scripted peer over TCP; oracle on the peer transcript: mechanism == the one the credential supports and it was advertised, base64-decoded payload == NUL local NUL secret byte for byte; no common mechanism => nothing after the stream header and a permanent ConnError; <failure/> => permanent error; anything but <success/> => Connect fails; non-trivial = secret or local part not purely alphanumeric, or the mechanism list is not exactly [PLAIN]",
 	Quick: 3000, Thorough: 24000, Journal: true,
 	Gen: genC14, Run: runC14,
 })
